@@ -77,6 +77,12 @@ def cases(rng, tier):
         x = bytes(rng.choice([13, 10, 13, 10, 97, 98, 32, 0] if rng.random() < 0.2 else [13, 10, 13, 10, 97, 98, 32])
                   for _ in range(n))
         yield {"kind": "conv", "setting": rng.choice(list(SETTINGS)), "x": x}
+    big = _big_cases(rng, tier)
+    for i, parts in enumerate(big):
+        for st in (list(SETTINGS) if i < 12 or tier != "quick" else [rng.choice(list(SETTINGS))]):
+            yield {"kind": "bigconv", "setting": st, "parts": parts}
+    for i, parts in enumerate(big[: (10 if tier == "quick" else 40)]):
+        yield {"kind": "bigcheckout", "setting": ["crlf", "lf", "native", "crlf-with-crlf-in-repo"][i % 4], "parts": parts}
     # real checkouts
     nco = 40 if tier == "quick" else 400
     pool = [b"a\nb\n", b"a\r\nb\r\n", b"\r\r\n", b"a\x00\r\n", b"a\rb", b"", b"\n", b"\r\n"]
@@ -88,6 +94,38 @@ def cases(rng, tier):
         yield {"kind": "checkout", "setting": rng.choice(list(SETTINGS)), "x": x}
 
 
+def _expand(parts):
+    return b"".join(bytes([b]) * n for b, n in parts)
+
+
+def _digest(x):
+    acc = 0
+    for i, b in enumerate(x):
+        acc = (acc + (i % 251 + 1) * b) % 1000003
+    return [len(x), acc]
+
+
+def _big_cases(rng, tier):
+    """Long contents: NUL far from the start, CR LF straddling typical buffer sizes."""
+    out = []
+    for boundary in (4096, 8000, 8192, 65000, 65536, 131072):
+        out.append([[97, boundary - 1], [13, 1], [10, 1], [98, 5]])            # CR|LF across the boundary
+        out.append([[97, boundary - 2], [13, 1], [10, 1], [98, 5]])
+        out.append([[97, boundary], [10, 1], [98, 3], [0, 1], [13, 1], [10, 1]])   # first NUL beyond the boundary
+        out.append([[97, boundary - 1], [10, 1], [98, boundary], [13, 1], [10, 1], [0, 1]])
+        out.append([[13, 1], [10, 1], [97, boundary + 7], [0, 1]])
+    n = 6 if tier == "quick" else 60
+    for _ in range(n):
+        parts = []
+        for _ in range(rng.randint(2, 6)):
+            parts.append([rng.choice([97, 98, 32]), rng.choice([1, 100, 4095, 7999, 8191, 64999, 65535])])
+            parts.append([rng.choice([13, 10, 13, 10, 0]), 1])
+            if rng.random() < 0.5:
+                parts.append([10, 1])
+        out.append(parts)
+    return out
+
+
 def _setrule(s):
     from breezy import rules
     with open(_state["rules"], "w") as f:
@@ -96,14 +134,17 @@ def _setrule(s):
 
 
 def impl(inp):
-    x = bytes(inp["x"])
-    if inp["kind"] == "conv":
+    big = inp["kind"].startswith("big")
+    x = _expand(inp["parts"]) if big else bytes(inp["x"])
+    if inp["kind"] in ("conv", "bigconv"):
         from breezy.filters import filtered_input_file, filtered_output_bytes
         from breezy.filters.eol import eol_lookup
         filters = eol_lookup(inp["setting"])
         w = b"".join(filtered_output_bytes([x], filters))
         rr = filtered_input_file(io.BytesIO(w), filters)[0].read()
         r0 = filtered_input_file(io.BytesIO(x), filters)[0].read()
+        if big:
+            return [_digest(w), _digest(rr), _digest(r0), rr == x]
         return [w, rr, r0]
     from breezy import controldir
     _state["n"] += 1
@@ -123,6 +164,8 @@ def impl(inp):
         co = co.controldir.open_workingtree()
         with co.lock_read():
             ch = list(co.iter_changes(co.basis_tree()))
+        if big:
+            return [_digest(disk), len(ch) == 0]
         return [disk, len(ch) == 0]
     finally:
         shutil.rmtree(base + "w", ignore_errors=True)
@@ -130,6 +173,10 @@ def impl(inp):
 
 
 def model_term(inp):
+    if inp["kind"].startswith("big"):
+        f = "run_big" if inp["kind"] == "bigconv" else "run_checkout_big"
+        parts = "[" + "; ".join(f"({b}%N, {n}%N)" for b, n in inp["parts"]) + "]"
+        return f"{f} {SETTINGS[inp['setting']]} {parts}"
     f = "run_case" if inp["kind"] == "conv" else "run_checkout"
     return f"{f} {SETTINGS[inp['setting']]} {coq_bytes(bytes(inp['x']))}"
 
@@ -138,6 +185,25 @@ def oracle(inp, obs):
     """The property itself, on the implementation's observation."""
     if isinstance(obs, Err):
         return "driver error " + str(obs)
+    if inp["kind"].startswith("big"):
+        x = _expand(inp["parts"])
+        from breezy.filters import filtered_input_file
+        from breezy.filters.eol import eol_lookup
+        flt = eol_lookup(inp["setting"])
+        if inp["kind"] == "bigconv":
+            dw, drr, dr0, same = obs
+            if 0 in x:
+                if dw != _digest(x) or dr0 != _digest(x):
+                    return "binary content (contains NUL) was converted (long input)"
+                return None
+            if dr0 == _digest(x) and not same:
+                return "canonical long text does not round-trip"
+            return None
+        ddisk, clean = obs
+        canonical = filtered_input_file(io.BytesIO(x), flt)[0].read() == x
+        if canonical and not clean:
+            return f"fresh checkout of a canonical long file ({len(x)} bytes) under eol={inp['setting']} reports changes"
+        return None
     x = bytes(inp["x"])
     if inp["kind"] == "conv":
         w, rr, r0 = obs
@@ -158,6 +224,10 @@ def oracle(inp, obs):
 
 
 def finding_matches(fid, inp, obs, why):
+    if fid == "C45-crcrlf" and inp["kind"].startswith("big"):
+        x = _expand(inp["parts"])
+        return (inp["setting"] in ("lf-with-crlf-in-repo", "native-with-crlf-in-repo")
+                and b"\r\r\n" in x and 0 not in x)
     if fid == "C45-crcrlf":
         return (inp["setting"] in ("lf-with-crlf-in-repo", "native-with-crlf-in-repo")
                 and b"\r\r\n" in bytes(inp["x"]) and 0 not in bytes(inp["x"]))
@@ -165,13 +235,17 @@ def finding_matches(fid, inp, obs, why):
 
 
 def nontrivial(inp, obs):
+    if inp["kind"].startswith("big"):
+        return True
     return 13 in bytes(inp["x"]) or 10 in bytes(inp["x"])
 
 
 def distribution(inputs, observations):
     d = {"conv": 0, "checkout": 0, "with_nul": 0, "canonical": 0, "by_len": {}}
     for i, o in zip(inputs, observations):
-        d[i["kind"]] += 1
+        d[i["kind"]] = d.get(i["kind"], 0) + 1
+        if i["kind"].startswith("big"):
+            continue
         x = bytes(i["x"])
         if 0 in x:
             d["with_nul"] += 1
@@ -183,6 +257,8 @@ def distribution(inputs, observations):
 
 
 def shrink(inp, fails):
+    if inp["kind"].startswith("big"):
+        return inp
     x = bytes(inp["x"])
     changed = True
     while changed:
